@@ -381,3 +381,58 @@ def sami_read_skeleton(c):
 def prove_sami_read_skeleton(ctx):
     from pycaption.sami import SAMIReader as SR
     ctx.prove("sami.SAMIReader.read", sami_read_skeleton, functions=[SR.read], crosscheck=False)
+
+
+# ------------------------------------------------------------------------------------ DFXPReader._convert_p_tag_to_caption
+
+def dfxp_p_skeleton(c):
+    """DFXPReader._convert_p_tag_to_caption over histories of two paragraphs on ONE reader object (C01, C10): the first
+    paragraph is converted, has no nodes, or is refused (its times raise the timing error - after or before its nodes were
+    looked at); then a second paragraph is converted.  `_find_and_convert_times`, `_convert_tag_to_node` (which appends to
+    `self.nodes`) and `_convert_style` are recording stubs.
+
+      * a caption carries the times returned for ITS paragraph, that paragraph's own layout and style, and exactly the
+        nodes produced for it - nothing of an earlier paragraph, converted, empty or refused; a paragraph that produces
+        no node is no caption."""
+    from pycaption.base import CaptionNode
+    from pycaption.dfxp.base import DFXPReader as DR
+    from pycaption.exceptions import CaptionReadTimingError
+    first = c.pick("first_paragraph", ["converted", "without nodes", "refused"])
+    rd = c.new(DR, read_invalid_positioning=False, nodes=[])
+    p1, p2 = _RTag("p", {"tag": "one"}, "one"), _RTag("p", {"tag": "two"}, "two")
+
+    def h_times(interp, fn, a, kw):
+        p_ = N(fn, a, kw)["p_tag"]
+        if p_ is p1 and first == "refused":
+            raise CaptionReadTimingError("no begin")
+        return (1000, 2000) if p_ is p1 else (3000, 4000)
+
+    def h_nodes(interp, fn, a, kw):
+        x = N(fn, a, kw)
+        me, p_ = x["self"], x["tag"]
+        if not (p_ is p1 and first == "without nodes"):
+            me.nodes.append(CaptionNode.create_text("text of " + p_.attrs["tag"]))
+        return None
+    q = "pycaption.dfxp.base:DFXPReader."
+    c.interp.contracts.update({q + "_find_and_convert_times": h_times, q + "_convert_tag_to_node": h_nodes,
+                               q + "_convert_style": lambda interp, fn, a, kw: {"style of": N(fn, a, kw)["tag"].attrs["tag"]}})
+    from pyvc.verify import require_callees
+    require_callees(c.interp.contracts)
+    r1 = c.call(DR._convert_p_tag_to_caption, rd, p1, raises=(CaptionReadTimingError,), compare=False)
+    if first == "converted":
+        c.ensure("first/its_own_times_nodes_style_and_layout", not isinstance(r1, Raised) and r1 is not None and (r1.start, r1.end) == (1000, 2000)
+                 and [n_.content for n_ in r1.nodes] == ["text of one"] and r1.style == {"style of": "one"} and r1.layout_info == p1.layout_info)
+    elif first == "without nodes":
+        c.ensure("first/no_node_no_caption", r1 is None)
+    else:
+        c.ensure("first/the_timing_error_reaches_the_caller", isinstance(r1, Raised))
+    r2 = c.call(DR._convert_p_tag_to_caption, rd, p2, compare=False)
+    c.ensure("second/its_own_times_style_and_layout", r2 is not None and (r2.start, r2.end) == (3000, 4000) and r2.style == {"style of": "two"} and r2.layout_info == p2.layout_info)
+    c.ensure("second/exactly_the_nodes_produced_for_it_nothing_of_the_first", r2 is not None and [n_.content for n_ in r2.nodes] == ["text of two"])
+    if first == "converted" and not isinstance(r1, Raised) and r1 is not None:
+        c.ensure("first/its_nodes_are_still_its_own_after_the_second", [n_.content for n_ in r1.nodes] == ["text of one"])
+
+
+def prove_dfxp_p_skeleton(ctx):
+    from pycaption.dfxp.base import DFXPReader as DR
+    ctx.prove("dfxp.DFXPReader._convert_p_tag_to_caption", dfxp_p_skeleton, functions=[DR._convert_p_tag_to_caption], crosscheck=False)
